@@ -6,7 +6,7 @@
 (*    original and of the re-parsed value (bag projection), ast, elem, mo, mr (eq: match outcome 0/1/2)}   *)
 (* The RoundTrip action demands: the text parses, prints identically, evaluates identically, and - for     *)
 (* equations, which the Script model covers - both evaluations equal Script!Expect.                       *)
-EXTENDS Script
+EXTENDS PathText
 CONSTANT MaxBad
 
 Trace == ndJsonDeserialize("trace.ndjson")
@@ -20,7 +20,15 @@ TraceInit == c = 1 /\ TLCSet(1, <<>>) /\ TLCSet(2, 0) /\ TLCSet(3, 0) /\ TLCSet(
 OrderDependent(ev) == /\ ev.k = "path"
                       /\ LET fr == ev.case.fr IN
                          \E i, j \in 1..Len(fr) : i < j /\ fr[j].f = "desc" /\ fr[i].f \in {"wild", "desc", "union", "slice", "filter"}
-ModelSays(ev) == IF ev.k = "eq" THEN Expect(ev.ast, ev.elem, ev.elem) ELSE "ANY"
+\* k = "txt": the case is a script TEXT, given as the item sequence it was rendered from (atoms, operators, "!" markers and
+\* parenthesised groups); the tree the text denotes is PathText!ParseItems of the items, groups first (precedence levels,
+\* equal precedence left to right, "!" takes the rest). The parsed script must evaluate like that tree.
+RECURSIVE Intended(_)
+Intended(items) == ParseItems([i \in 1..Len(items) |-> IF items[i].k = "grp" THEN Atom(Intended(items[i].g)) ELSE items[i]])
+IsEq(ev) == ev.k = "eq" \/ ev.k = "txt"
+ModelSays(ev) == IF ev.k = "eq" THEN Expect(ev.ast, ev.elem, ev.elem)
+                 ELSE IF ev.k = "txt" THEN Expect(Intended(ev.case.items), ev.elem, ev.elem)
+                 ELSE "ANY"
 Verdict14(ev) ==
     IF ev.perr = 2 THEN "printer-panics"
     ELSE IF ev.perr = 1 THEN "does-not-parse"
@@ -30,8 +38,8 @@ Verdict14(ev) ==
     \* ALLOW: an original whose repeated evaluation on the same data gives several results (Expr.Get through a wildcard
     \* or descent over maps followed by a descent depends on map order: a C05 matter) has no value to preserve
     ELSE IF ~ev.same /\ Len(ev.eos) = 1 /\ ev.ers # ev.eos /\ ~OrderDependent(ev) THEN "evaluates-differently"
-    ELSE IF ev.k = "eq" /\ ev.mo = 2 THEN "panic"
-    ELSE IF ev.k = "eq" /\ ((ModelSays(ev) = "T" /\ ev.mo = 0) \/ (ModelSays(ev) = "F" /\ ev.mo = 1)) THEN "model-differs"
+    ELSE IF IsEq(ev) /\ ev.mo = 2 THEN "panic"
+    ELSE IF IsEq(ev) /\ ((ModelSays(ev) = "T" /\ ev.mo = 0) \/ (ModelSays(ev) = "F" /\ ev.mo = 1)) THEN "model-differs"
     ELSE "ok"
 \* ---- locus of a path case: the fragment kinds of the (shrunk) expression, keys by byte class
 Alnum(b) == (48 <= b /\ b <= 57) \/ (65 <= b /\ b <= 90) \/ (97 <= b /\ b <= 122) \/ b = 95
@@ -67,7 +75,8 @@ RoundTrip == /\ c <= N
              /\ LET ev == Trace[c] v == Verdict14(ev) IN
                 /\ (v = "ok" \/ Len(TLCGet(1)) >= MaxBad
                     \/ TLCSet(1, Append(TLCGet(1), [i |-> c, kind |-> v, form |-> ev.form, cell |-> ev.cell,
-                                                     tri |-> IF ev.k = "eq" THEN (IF "wrap" \in DOMAIN ev.case THEN Triple(ev.ast.l) ELSE Triple(ev.ast)) ELSE <<"-", "-", "-">>,
+                                                     tri |-> IF ev.k = "eq" THEN (IF "wrap" \in DOMAIN ev.case THEN Triple(ev.ast.l) ELSE Triple(ev.ast))
+                                                             ELSE IF ev.k = "txt" THEN Triple(Intended(ev.case.items)) ELSE <<"-", "-", "-">>,
                                                      ploc |-> IF ev.k = "path" THEN PathLocus(ev.case) ELSE "-",
                                                      model |-> ModelSays(ev)])))
                 /\ (v = "ok" \/ TLCSet(3, TLCGet(3) + 1))
